@@ -15,6 +15,12 @@ from .. import tlc, local, suitegen, inputs
 PID = 'C05'
 
 
+CLASS_CONTEXTS = ('class', 'dataclass', 'dataclass_if', 'dataclass_second', 'dataclass_call', 'dataclass_name', 'namedtuple', 'namedtuple_name', 'typeddict',
+                  'dataclass_after_inner', 'namedtuple_after_inner', 'class_after_dataclass')
+# contexts in which the first statement of the block is in docstring position (of the module, a function or a class)
+DOCSTRING_CONTEXTS = ('module_top', 'function', 'class', 'dataclass', 'dataclass_second', 'dataclass_call', 'dataclass_name', 'namedtuple', 'namedtuple_name', 'typeddict')
+
+
 def run(args, rep):
     rng = random.Random(args.seed)
     cfg = 'MC_Suite2.cfg' if args.tier == 'quick' else 'MC_Suite3.cfg'
@@ -27,8 +33,10 @@ def run(args, rep):
     c2 = [c for c in c2 if len(c['blk']) == 2]
     total = len(c1) + len(c2)
     rng.shuffle(c2)
-    scoped = [c for c in c2 if any(st[0] in ('dbg_bind', 'assert_bind') for st in c['blk']) and any(st[0] in ('use_zq', 'nl_zq') for st in c['blk'])]
-    cases = c1 + (c2[:24000] + [c for c in scoped if c not in c2[:24000]] if args.tier == 'quick' else c2)
+    scoped = [c for c in c2 if any(st[0] in ('dbg_bind', 'assert_bind', 'dbg_global') for st in c['blk']) and any(st[0] in ('use_zq', 'nl_zq', 'set_zq') for st in c['blk'])]
+    scoped += [c for c in c2 if c['ctx'] in ('dataclass_after_inner', 'namedtuple_after_inner', 'class_after_dataclass') and any(st[0] in ('annval', 'annnoval') for st in c['blk'])
+               and ('ann_class' in c['opts'])]
+    cases = c1 + (c2[:12000] + [c for c in scoped if c not in c2[:12000]] if args.tier == 'quick' else c2)
     jobs = [{'id': 's%d' % k, 'ctx': c['ctx'], 'env': c['env'], 'blk': c['blk'], 'opts': c['opts'], 'm': c['m']} for k, c in enumerate(cases)]
     # every case in which the module uses the __doc__ name, once per spelling of that use (read, augmented assignment, assignment, read in a function, del)
     for j in list(jobs):
@@ -58,11 +66,14 @@ def run(args, rep):
         o = keep[rid]
         shape = ('doc-%s|' % rid.split('+')[1] if '+' in rid else '') + '%s|%s|%s|%s' % (o['ctx'], ','.join(k for k, val in sorted(o['env'].items()) if val), ';'.join('.'.join(st) for st in o['blk']), ','.join(o['opts']))
         # a string statement that was not first in a module becomes its docstring once what preceded it is removed (known finding D20)
-        promoted = (o['ctx'] == 'module_top' and o['blk'][0] != ['litstr'] and o['out_blk'][:1] == [['litstr']] and v[0].startswith('c05:behaviour'))
+        promoted = (o['ctx'] in DOCSTRING_CONTEXTS and o['blk'][0] != ['litstr'] and o['out_blk'][:1] == [['litstr']] and v[0].startswith('c05:behaviour'))
         # a removed assert / `if __debug__:` block held the only binding of a name the function still looks up (known finding D27 = KF_D27 of SuiteS.tla)
         kinds = [st[0] for st in o['blk']]
-        d27 = (o['ctx'] in ('function', 'function_if') and ('use_zq' in kinds or 'nl_zq' in kinds)
-               and (('remove_debug' in o['opts'] and 'dbg_bind' in kinds) or ('remove_asserts' in o['opts'] and 'assert_bind' in kinds))
+        infn = o['ctx'] in ('function', 'function_if')
+        own_scope = infn or o['ctx'] in CLASS_CONTEXTS
+        d27 = (((infn and ('use_zq' in kinds or 'nl_zq' in kinds)
+                 and (('remove_debug' in o['opts'] and 'dbg_bind' in kinds) or ('remove_asserts' in o['opts'] and 'assert_bind' in kinds)))
+                or (own_scope and 'remove_debug' in o['opts'] and 'dbg_global' in kinds and any(k in kinds for k in ('use_zq', 'nl_zq', 'set_zq', 'dbg_bind', 'assert_bind'))))
                and v[0] in ('c05:output-suite-not-among-the-documented-rewrites', 'c05:behaviour-under-O-differs', 'c05:minify-raised:raise:SyntaxError'))
         rep.violation(key=('D20:' if promoted else 'D27:' if d27 else '') + shape + '|' + v[0], clause=v[0],
                       what='%s -> %s\n%s--- output:\n%s\nruns: O0 %s / %s ; O1 %s / %s' % (shape, o['out_blk'], o.get('_src'), o.get('_out'), o['run0_in'], o['run0_out'], o['run1_in'], o['run1_out']),
@@ -75,7 +86,7 @@ def run(args, rep):
     nsym = len(set(tuple(st) for c in c1 for st in c['blk']))
     nctx = len(set(c['ctx'] for c in c1))
     rep.rule = ('cases = (context, environment, block, options) exported by TLC from Suite.tla: every block of length 1 (%d cases) and length 2 (%d cases; '
-                'quick: seeded 24 000 plus every case that pairs a name-binding assert / __debug__ block with a lookup of the name) over %d statement symbols in %d contexts, '
+                'quick: seeded 12 000 plus every case that pairs a name-binding assert / __debug__ block with a lookup of the name) over %d statement symbols in %d contexts, '
                 'options = every subset of those relevant to the block with the rest all off / all on; '
                 'non-trivial = distinct cases whose output block differs from the input block' % (len(c1), len(c2), nsym, nctx))
     rep.extra.update({'cases_enumerated_by_tlc': total, 'cases_replayed': len(cases), 'model_drift_cases': drift,
@@ -85,6 +96,13 @@ def run(args, rep):
 
 
 def replay(rp):
+    if rp.get('kind') == 'suite-corpus':
+        import base64
+        from .. import suitecanon
+        name, optset = rp['id'].rsplit('|', 1)
+        for r in suitecanon.observe_module({'id': name, 'src': base64.b64decode(rp['src_b64']), 'optsets': {optset: rp['opts']}}):
+            print(r)
+        return
     o = suitegen.observe({'id': 'replay', 'ctx': rp['ctx'], 'env': rp['env'], 'blk': rp['blk'], 'opts': rp['opts'], 'doc_use': rp.get('doc_use', 'load')})
     print(o.get('_src'))
     print('--- output')
